@@ -327,7 +327,7 @@ def gen_scripts(chk):
         cases.append((c, "script-3x1x3"))
     # 3 handlers x <=2 actions x 3 stanzas: sampled
     acts_of = small_universe(3)
-    for _ in range(120000 if thorough else 3000):
+    for _ in range(400000 if thorough else 3000):
         kinds = [rng.choice("si") for _ in range(3)]
         behs = []
         for i in range(3):
@@ -591,7 +591,7 @@ def run(chk):
     cases += gen_match(chk)
     cases += gen_scripts(chk)
     cases += gen_timed(chk)
-    cases += gen_random(chk, 60000 if thorough else 6000)
+    cases += gen_random(chk, 150000 if thorough else 6000)
     uaf = gen_uaf(chk)
     lines = [c for c, _ in cases]
     impl = vlib.run_parallel(exe, lines, batch=500)
